@@ -8,7 +8,7 @@
    instance that Check/C18.v compares bit for bit with /repo on every run. *)
 From Verif Require Import Base.GoSem Base.F32 Geom.Matrix Geom.TransformSpec Geom.MatrixProofs.
 From Verif Require Import Geom.SvgPath Geom.Shapes Geom.UseGraph Geom.SvgPathSpec.
-From Verif Require Import Geom.SvgPathProofs Geom.ShapesProofs Geom.UseGraphProofs.
+From Verif Require Import Geom.SvgPathProofs Geom.ShapesProofs Geom.UseGraphProofs Geom.SvgLexProofs Geom.SvgPathEndToEnd.
 From Coq Require Import QArith List NArith ZArith.
 Import ListNotations.
 Open Scope Q_scope.
@@ -39,6 +39,62 @@ Proof. exact exec_total. Qed.
 Print Assumptions C18_exec_total.
 
 (* ------------------------------------------------------------------ *)
+(* the number scanner against the SVG number grammar (SvgPathSpec.literal:
+   sign? (digits ("." digits?)? | "." digits) (("e"|"E") sign? digits)?) *)
+
+(* strconv.ParseFloat's syntax accepts every legal literal with the value
+   (mantissa, decimal exponent) the grammar gives it *)
+Theorem C18_parse_float_spec : forall l : literal, lit_ok l = true ->
+  parse_float (lit_spelling l) = Some (lit_value l).
+Proof. exact parse_float_spec. Qed.
+Print Assumptions C18_parse_float_spec.
+
+(* lex_spec: parsePoints on any legal spelling of a number list (separators:
+   any bytes that cannot start a number; literals glued where the grammar can
+   tell them apart: "1-2.5.5", "1e2.5", "+.5") returns the denoted values in
+   order.  Covers polyline/polygon points, viewBox and every path command
+   except A/a, for every literal conversion cv. *)
+Theorem C18_lex_spec : forall cv toks trail, toks_ok toks trail -> sep_ok trail = true ->
+  parse_points cv false (spell_toks toks trail) = Ok (values cv toks).
+Proof. exact lex_spec. Qed.
+Print Assumptions C18_lex_spec.
+
+(* the same for the argument lists of A/a, where positions 3 and 4 (mod 7)
+   hold one-byte flags that need no separator ("a1 1 0 00.5.5") *)
+Theorem C18_lex_arc_spec : forall cv toks trail, atoks_ok 0 toks trail -> sep_ok trail = true ->
+  parse_points cv true (spell_atoks toks trail) = Ok (avalues cv toks).
+Proof. exact lex_arc_spec. Qed.
+Print Assumptions C18_lex_arc_spec.
+
+Example C18_lex_arc_example :
+  let one := mklit false false [1%N] false [] None in
+  let half := mklit false false [] true [5%N] None in
+  let toks := [ANum [] one; ANum [32%N] one; ANum [32%N] (mklit false false [0%N] false [] None);
+               AFlag [32%N] false; AFlag [] false; ANum [] half; ANum [] half] in
+  atoks_ok 0 toks [] /\ spell_atoks toks [] = [49; 32; 49; 32; 48; 32; 48; 48; 46; 53; 46; 53]%N /\
+  avalues cv_exact toks = Some [inject_Z 1; inject_Z 1; inject_Z 0; inject_Z 0; inject_Z 0; (5 # 10); (5 # 10)].
+Proof.
+  cbv zeta. repeat split; try reflexivity; try (intros p Hp; cbn; rewrite ?Hp; reflexivity).
+Qed.
+
+(* non-vacuity: "1-2.5.5" is 1, -2.5, .5 and "1e+2.5 3E1" is 100, .5, 30 *)
+Example C18_lex_example :
+  let dg := fun (neg : bool) (i : list N) (dot : bool) (f : list N) e => mklit neg false i dot f e in
+  toks_ok [mktok [] (dg false [1%N] false [] None); mktok [] (dg true [2%N] true [5%N] None);
+           mktok [] (dg false [] true [5%N] None)] [] /\
+  spell_toks [mktok [] (dg false [1%N] false [] None); mktok [] (dg true [2%N] true [5%N] None);
+              mktok [] (dg false [] true [5%N] None)] [] = [49; 45; 50; 46; 53; 46; 53]%N /\
+  values cv_exact [mktok [] (dg false [1%N] false [] None); mktok [] (dg true [2%N] true [5%N] None);
+                   mktok [] (dg false [] true [5%N] None)] = Some [inject_Z 1; (-25 # 10); (5 # 10)] /\
+  toks_ok [mktok [] (dg false [1%N] false [] (Some (false, false, [2%N], true)));
+           mktok [] (dg false [] true [5%N] None);
+           mktok [32%N] (dg false [3%N] false [] (Some (true, false, [1%N], false)))] [].
+Proof.
+  cbv zeta. repeat split; try reflexivity;
+    try (intros p Hp; cbn; rewrite ?Hp; reflexivity).
+Qed.
+
+(* ------------------------------------------------------------------ *)
 (* on every abstract command list (all commands, absolute and relative, any
    number of argument groups) the interpreter's op list is the one SVG 1.1
    section 8.3 defines: implicit repetition, moveto's extra pairs are linetos,
@@ -63,6 +119,31 @@ Example C18_path_example :
      OCubic 0 0 1 2 3 3; OCubic (3 * 2 - 1) (3 * 2 - 2) (1 + 3) (0 + 3) (2 + 3) (2 + 3);
      OLine (2 + 3 + 1) (2 + 3); OLine (2 + 3 + 1 + 1) (2 + 3); OLine (2 + 3 + 1 + 1) 0].
 Proof. reflexivity. Qed.
+
+(* lexer and interpreter together: for every abstract command list and every
+   legal spelling of it (leading bytes without command letters, then for each
+   command its letter and a legal spelling of its numbers), parsePath returns
+   the op list of the specification *)
+Theorem C18_path_string_spec : forall (lead : list N) (segs : list sseg),
+  no_cmd lead = true -> Forall seg_ok segs ->
+  parse_path exactQ (fun x => x) cv_exact (spell_path lead segs) = Ok (Some (denote (map s_cmd segs))).
+Proof. exact path_string_spec. Qed.
+Print Assumptions C18_path_string_spec.
+
+(* non-vacuity: " M1-2.5.5-3 Z" *)
+Example C18_path_string_example :
+  let dg := fun (neg : bool) (i : list N) (dot : bool) (f : list N) => mklit neg false i dot f None in
+  let segs := [mkseg (CMove false (1, -25 # 10) [(5 # 10, -3)])
+                     (SNums [mktok [] (dg false [1%N] false []); mktok [] (dg true [2%N] true [5%N]);
+                             mktok [] (dg false [] true [5%N]); mktok [] (dg true [3%N] false [])] [32%N]);
+               mkseg (CClose false) (SNums [] [])] in
+  Forall seg_ok segs /\
+  spell_path [32%N] segs = [32; 77; 49; 45; 50; 46; 53; 46; 53; 45; 51; 32; 90]%N /\
+  denote (map s_cmd segs) = [OMove 1 (-25 # 10); OLine (5 # 10) (-3); OClose 1 (-25 # 10)].
+Proof.
+  cbv zeta. split; [|split; reflexivity].
+  repeat constructor; try reflexivity; try (intros p Hp; cbn; rewrite ?Hp; reflexivity).
+Qed.
 
 (* arcs (every arithmetic instance): the segment starts at the current point
    and ends exactly at the given point; identical end points: omitted; a zero
@@ -112,6 +193,13 @@ Theorem C18_shapes_spec_line_poly :
   (forall closed, poly_ops closed [] = []).
 Proof. exact (conj line_spec (conj poly_spec poly_empty)). Qed.
 Print Assumptions C18_shapes_spec_line_poly.
+
+(* the points attribute of polyline / polygon: consecutive pairs, a trailing
+   odd coordinate is ignored (SVG 1.1 9.6) *)
+Theorem C18_parse_poly_spec : forall cv d,
+  parse_poly cv d = let* r := parse_points cv false d in Ok (option_map pairs r).
+Proof. exact parse_poly_spec. Qed.
+Print Assumptions C18_parse_poly_spec.
 
 Example C18_rect_example :
   rect_outline 0 0 10 4 (SomeQ 8) NoQ
